@@ -257,6 +257,10 @@ public:
     size_t nrB = B.getNumberOfRows();
     size_t ncB = B.getNumberOfColumns();
     if (ncA != nrB) throw DimensionException("MatrixTools::mult(). nrows B != ncols A.", nrB, ncA);
+    if (iA.getNumberOfRows() != nrA) throw DimensionException("MatrixTools::mult(). nrows iA != nrows A.", iA.getNumberOfRows(), nrA);
+    if (iA.getNumberOfColumns() != ncA) throw DimensionException("MatrixTools::mult(). ncols iA != ncols A.", iA.getNumberOfColumns(), ncA);
+    if (iB.getNumberOfRows() != nrB) throw DimensionException("MatrixTools::mult(). nrows iB != nrows B.", iB.getNumberOfRows(), nrB);
+    if (iB.getNumberOfColumns() != ncB) throw DimensionException("MatrixTools::mult(). ncols iB != ncols B.", iB.getNumberOfColumns(), ncB);
     O.resize(nrA, ncB);
     iO.resize(nrA, ncB);
     for (size_t i = 0; i < nrA; i++)
@@ -336,6 +340,11 @@ public:
     size_t ncB = B.getNumberOfColumns();
     if (ncA != nrB) throw DimensionException("MatrixTools::mult(). nrows B != ncols A.", nrB, ncA);
     if (ncA != D.size()) throw DimensionException("MatrixTools::mult(). Vector size is not equal to matrix size.", D.size(), ncA);
+    if (ncA != iD.size()) throw DimensionException("MatrixTools::mult(). Vector size is not equal to matrix size.", iD.size(), ncA);
+    if (iA.getNumberOfRows() != nrA) throw DimensionException("MatrixTools::mult(). nrows iA != nrows A.", iA.getNumberOfRows(), nrA);
+    if (iA.getNumberOfColumns() != ncA) throw DimensionException("MatrixTools::mult(). ncols iA != ncols A.", iA.getNumberOfColumns(), ncA);
+    if (iB.getNumberOfRows() != nrB) throw DimensionException("MatrixTools::mult(). nrows iB != nrows B.", iB.getNumberOfRows(), nrB);
+    if (iB.getNumberOfColumns() != ncB) throw DimensionException("MatrixTools::mult(). ncols iB != ncols B.", iB.getNumberOfColumns(), ncB);
     O.resize(nrA, ncB);
     iO.resize(nrA, ncB);
     Scalar ab, iaib, iab, aib;
@@ -1052,6 +1061,10 @@ public:
     size_t ncB = B.getNumberOfColumns();
     if (nrA != nrB) throw DimensionException("MatrixTools::hadamardMult(). nrows A != nrows B.", nrA, nrB);
     if (ncA != ncB) throw DimensionException("MatrixTools::hadamardMult(). ncols A != ncols B.", ncA, ncB);
+    if (iA.getNumberOfRows() != nrA) throw DimensionException("MatrixTools::hadamardMult(). nrows iA != nrows A.", iA.getNumberOfRows(), nrA);
+    if (iA.getNumberOfColumns() != ncA) throw DimensionException("MatrixTools::hadamardMult(). ncols iA != ncols A.", iA.getNumberOfColumns(), ncA);
+    if (iB.getNumberOfRows() != nrB) throw DimensionException("MatrixTools::hadamardMult(). nrows iB != nrows B.", iB.getNumberOfRows(), nrB);
+    if (iB.getNumberOfColumns() != ncB) throw DimensionException("MatrixTools::hadamardMult(). ncols iB != ncols B.", iB.getNumberOfColumns(), ncB);
     O.resize(nrA, ncA);
     iO.resize(nrA, ncA);
     for (size_t i = 0; i < nrA; i++)
